@@ -80,7 +80,7 @@ class C12(PropBase):
     bins = ["c12"]
     rule = ("case = (tasks: lists of (module key, API used), per key: suspensions, supplier answer, module identity "
             "(code_file, code_id, debug_file, debug_id), poll schedule); mode 0 polls the real futures in schedule order then "
-            "round-robin; mode 1 is a wake-driven executor (only woken tasks are polled). Exhaustive family: 2 tasks x 1..2 "
+            "round-robin; mode 1 is a wake-driven executor (only woken tasks are polled; the poll trace is compared). Exhaustive family: 2 tasks x 1..2 "
             "lookups x 2 keys x suspensions 0..1 x all binary schedules of the tier's length; random family up to 4 tasks x 3 "
             "lookups x 3 keys x 3 suspensions with spurious polls, starvation bursts and unknown task ids. A case is "
             "non-trivial when at least two tasks ask for the same key; distinct = distinct case lines")
@@ -91,19 +91,24 @@ class C12(PropBase):
         "register waker, try_lock); tied to the code by the correspondence run over explicit poll orders",
         "extraction: ExtrOcamlBasic only; ocaml/zconv.ml + ocaml/c12/main.ml glue; harness/src/bin/c12.rs (mock supplier, executor)",
         "a task is a sequential future; the executor is single-threaded (std Mutex/Arc/atomics of the multi-threaded case assumed correct)",
+        "wake-driven theorems: the supplier future wakes its task before answering Pending (contract of any correct future); "
+        "slab 0.4.9 hands out indices in increasing order while nothing is removed (checked by the mode-1 trace comparison)",
     ]
     manifest = {
         "text": "Theorems (Coq, all schedules incl. spurious polls, any number of tasks/keys/suspensions, no bound): the supplier is "
                 "called at most once per key (c12_at_most_once), every finished lookup returns the single scripted answer of its "
                 "key incl. failures (c12_same_outcome), results are complete and in order at quiescence (c12_results_complete), "
                 "requested = processed = distinct keys at quiescence (c12_counters), some task can always progress "
-                "(c12_no_deadlock) and under any fair schedule all tasks finish within T*work polls (c12_no_lost_request). The "
+                "(c12_no_deadlock), under any fair schedule all tasks finish within T*work polls (c12_no_lost_request), and with "
+                "the futures Mutex's waiter slab modelled no wake-up is lost (c12_no_lost_wakeup) and a wake-driven executor "
+                "finishes within 2*work+ntasks polls whatever it picks (c12_wake_driven_finishes). The "
                 "model is tied to the real Symbolizer by polling boxed futures in the case's order (exhaustive for 2 tasks x <=2 "
                 "lookups x 2 keys x <=1 suspension, random up to 4x3x3x3, plus a wake-driven executor) in debug and release; an "
                 "independent oracle re-checks the property on the implementation's answers.",
         "note": "Trusted: Coq kernel; hand-written model of CachedAsyncResult/get_symbols/futures Mutex (correspondence-checked, not "
-                "verified); extraction + OCaml/Rust glue. Wake-up delivery (no lost wake-up under a wake-driven executor) is exercised "
-                "by the harness, not proved; cancellation and multi-threaded memory ordering are outside the property. No axioms.",
+                "verified; the waiter-slab/waker model is tied by comparing full poll traces of a wake-driven executor); extraction + "
+                "OCaml/Rust glue; the supplier is assumed to wake the task whenever it answers Pending. Cancellation and "
+                "multi-threaded memory ordering are outside the property. No axioms.",
     }
     assumptions = ["no cancellation (a dropped lookup future is outside the property)",
                    "one executor thread polls the tasks; std::sync::Mutex / Arc / atomics are assumed correct",
@@ -181,6 +186,29 @@ class C12(PropBase):
             else:
                 dist["random"] += 1
             cases.append(fmt_case(mode, tasks, keys, sched))
+        # wake-driven contention: several tasks queue on the same one or two keys while the supplier
+        # is suspended, so that the mutex's waiter slab holds several entries and unlock's
+        # "wake the first waiter" order is visible in the poll trace
+        nw = 4000 if tier == "quick" else 80000
+        for r in range(nw):
+            nt = rng.range(3, 4)
+            nk = rng.range(1, 2)
+            idents = random_idents(rng, nk)
+            keys = [(rng.range(1, 3), rng.choice([OK, NOTFOUND, PARSE])) + idents[i] for i in range(nk)]
+            tasks = [[(rng.below(nk), rng.below(3)) for _ in range(rng.range(1, 3))] for _ in range(nt)]
+            picks = [rng.below(nt) for _ in range(rng.range(0, 30))]
+            cases.append(fmt_case(1, tasks, keys, picks))
+        dist["wake_driven_contention"] = nw
+        # exhaustive wake-driven: 3 tasks, one lookup each of one key, suspensions 1..2, all pick sequences of length 6
+        nwx = 0
+        for su in (1, 2):
+            for third in (0, 1):
+                for picks in itertools.product((0, 1, 2), repeat=6 if tier == "quick" else 8):
+                    keys = [(su, OK, 1, 1, 1, 1), (1, NOTFOUND, 1, 2, 1, 1)]
+                    tasks = [[(0, 0)], [(0, 1)], [(third, 0), (0, 0)]]
+                    cases.append(fmt_case(1, tasks, keys, picks))
+                    nwx += 1
+        dist["wake_driven_exhaustive"] = nwx
         return cases, dist, True
 
     # ------------------------------------------------------------------ canonical forms
